@@ -164,6 +164,7 @@ Definition judge_files (f : list tok) : Z :=
   | FOk t => if (ocode =? 0) && tok_eqb (enc_ftree t) obs then 3000 + Z.min (ftree_size t) 99 else -1
   | FErr => if ocode =? 1 then 4000 else -1
   | FPanic => if ocode =? 100 then 4100 else -1
+  | FFuel => -1                      (* no verdict of the model is never agreement *)
   end.
 
 Definition judge_case (t : tok) : Z :=
